@@ -42,7 +42,7 @@ FLOORS = {"quick": {"departures_checked": 20000, "drop_decisions_checked": 20000
                        "monitor_samples_coincident": 6000, "red_arrivals": 2000000, "red_prob_region_arrivals": 400000,
                        "red_below_min": 100000, "red_above_limit": 40000, "lohi_ambiguous": 2000,
                        "arrival_at_departure_instant": 20000}}
-KEYS = tuple(FLOORS["quick"].keys()) + ("monitor_cases", "red_cases", "port_cases", "red_certain_drops_checked", "long_history_cases", "big_clock_cases", "zero_size_packets")
+KEYS = tuple(FLOORS["quick"].keys()) + ("monitor_cases", "red_cases", "port_cases", "red_certain_drops_checked", "long_history_cases", "big_clock_cases", "zero_size_packets", "reentry_cases", "reentries")
 
 
 def plan(tier):
@@ -56,6 +56,8 @@ def ncases(tier):
 def gen_case(rng, i):
     if i % 25 == 0:
         return gen_red(rng)
+    if i % 25 == 13:
+        return gen_reentry(rng)
     flavour = "exact" if rng.random() < 0.7 else "float"
     sizes = rng.choice([[100], [100, 200], [64, 128, 256], [100, 250, 1000], [0, 100], [0, 64, 128]])
     rate = rng.choice([0, 800, 800, 1600, 6400, 1000]) if flavour == "exact" else rng.choice([0, 1000, 3000, 777])
@@ -87,6 +89,116 @@ def gen_case(rng, i):
                            "samples": [rng.choice([0.37, 0.61, 1.13]) if offs else rng.choice([0.25, 0.5, 1, 0.125])
                                        for _ in range(60)]}
     return case
+
+
+def gen_reentry(rng):
+    """a port whose next hop hands some packets back to the same port -- at once, from inside its own put() (an
+    ack-clocked peer), or after a delay (a loop in the topology): the same Packet object passes the hop again"""
+    sizes = rng.choice([[100], [100, 200], [64, 128, 256]])
+    rate = rng.choice([0, 800, 1600, 6400])
+    qlimit = rng.choice([None, None, 2 * max(sizes), 3 * max(sizes) + min(sizes), 1000])
+    arr = vnet.gen_arrivals(rng, 2, "exact", rng.randint(3, 25), sizes, None, burst_p=0.45)
+    back = {}
+    for k in range(len(arr) * 3):
+        if rng.random() < 0.4:
+            back[str(k)] = rng.choice(["sync", "sync", 0, 0.25, 1, 3])      # what happens to the k-th departure
+    return {"kind": "reentry", "rate": rate, "qlimit": qlimit, "element_id": rng.choice(["p1", "", 0, 7]),
+            "arrivals": arr, "back": back}
+
+
+def run_reentry(case, stats):
+    import collections
+    from onl.netdev import Port
+    viol = []
+    net = vnet.Net(0)
+    env = net.env
+    rate, qlimit, eid = case["rate"], case["qlimit"], case["element_id"]
+    port = Port(env, rate, qlimit, True, eid)
+    orig = port.put
+    st = {"held": 0, "dep_prev": None, "ndep": 0, "passes": 0}
+    expected = collections.deque()
+    stats["reentry_cases"] += 1
+
+    def bad(m, what, wit=None):
+        if len(viol) < 4:
+            viol.append((m, what, wit))
+
+    def check_bytes(where):
+        stats["byte_size_checks"] += 1
+        if port.byte_size != st["held"]:
+            bad("byte-size-not-bytes-held", "the advertised byte occupancy differs from the bytes of packets accepted and not yet departed",
+                {"byte_size": port.byte_size, "held": st["held"], "where": where, "rate": rate})
+            st["held"] = port.byte_size
+
+    def put(p):
+        a = env.now
+        d0 = port.packets_dropped
+        must_drop = qlimit is not None and st["held"] + p.size > qlimit
+        orig(p)
+        dropped = port.packets_dropped - d0
+        stats["drop_decisions_checked"] += 1
+        if bool(dropped) != must_drop:
+            bad("drop-decision-wrong[bytes]", "a packet was refused / accepted against the byte rule (bytes held + size > qlimit)",
+                {"held": st["held"], "size": p.size, "qlimit": qlimit, "dropped": bool(dropped), "re-entry": p.perhop_time.get("passes")})
+        if dropped:
+            stats["drops"] += 1
+            return
+        st["held"] += p.size
+        start = a if st["dep_prev"] is None or st["dep_prev"] <= a else st["dep_prev"]
+        dep = start + (p.size * 8 / rate) if rate > 0 else start
+        st["dep_prev"] = dep
+        expected.append((p, dep))
+        stats["stamps_checked"] += 1
+        if p.perhop_time.get(eid, "missing") != a:
+            bad("perhop-stamp-missing-or-wrong", "an accepted packet is not stamped with its arrival time under the port's element id",
+                {"element_id": repr(eid), "stamp": repr(p.perhop_time.get(eid, "missing")), "arrival": a, "pass": "repeated" if id(p) in seen else "first"})
+        seen.add(id(p))
+        check_bytes("put")
+
+    seen = set()
+    keep = []
+
+    class Peer:
+        def put(self, p):
+            keep.append(p)
+            k = st["ndep"]
+            st["ndep"] += 1
+            if not expected:
+                bad("refused-packet-forwarded", "a packet left the port that was not held", None)
+                return
+            q, dep = expected.popleft()
+            stats["departures_checked"] += 1
+            if q is not p:
+                bad("output-not-accepted-sequence", "the packets leaving the port are not exactly the accepted packets in FIFO order", None)
+            elif env.now != dep:
+                bad("departure-time-wrong", "the k-th accepted packet did not leave at max(arrival, previous departure) + 8*size/rate",
+                    {"k": k, "expected": dep, "got": env.now, "rate": rate})
+            st["held"] -= p.size
+            check_bytes("out")           # the departing packet is no longer held when the next hop sees it
+            how = case["back"].get(str(k))
+            if how is None or st["passes"] >= 3 * len(case["arrivals"]):
+                return
+            st["passes"] += 1
+            stats["reentries"] += 1
+            if how == "sync":
+                port.put(p)
+            else:
+                def later(p=p, how=how):
+                    yield env.timeout(how)
+                    port.put(p)
+                env.process(later())
+
+    port.put = put
+    port.out = Peer()
+    env.post_hooks.append(lambda e: check_bytes("step"))
+    net.drivers(port, case["arrivals"])
+    err = net.run()
+    if err:
+        bad(err, "the run raised", net.errors[-1] if net.errors else err)
+        return viol
+    if expected:
+        bad("accepted-packet-never-left", "at the end of the run an accepted packet has not left the port", len(expected))
+    return viol
 
 
 def gen_red(rng):
@@ -430,7 +542,10 @@ def run_red(case, stats):
 def one_case(ctx, case):
     import collections
     stats = collections.Counter({k: 0 for k in KEYS})
-    if case["kind"] == "port":
+    if case["kind"] == "reentry":
+        viol = run_reentry(case, stats)
+        nt = stats["reentries"] >= 2
+    elif case["kind"] == "port":
         viol = run_port(case, stats)
         nt = stats["drops"] >= 1 and any(True for _ in [0]) and stats["departures_checked"] >= 2
         nt = nt and stats["drop_decisions_checked"] > stats["drops"]
